@@ -11,7 +11,8 @@ AVals == {Missing, Val(<<>>), Val(<<T(1)>>), Lit("0", FALSE), Lit("7", TRUE), Li
 BVals == {Missing, Val(<<T(2)>>), Val(<<Syn("var", "a")>>)}
 Lists == {[k |-> "missing"], [k |-> "list", items |-> <<>>], [k |-> "list", items |-> <<Val(<<T(3)>>)>>],
           [k |-> "list", items |-> <<Val(<<T(3)>>), Lit("4", TRUE)>>],
-          [k |-> "list", items |-> <<Val(<<Syn("var", "a")>>), Val(<<Syn("index", "")>>)>>], [k |-> "scalar"]}
+          [k |-> "list", items |-> <<Val(<<Syn("var", "a")>>), Val(<<Syn("index", "")>>)>>], [k |-> "scalar"],
+          [k |-> "list", items |-> <<Dv(<<Syn("var", "a"), T(4)>>), Dv(<<Syn("opt", "b")>>)>>]}        \* non-string items carrying template syntax in a field
 Body == {<<>>, <<[k |-> "item"]>>, <<[k |-> "text", n |-> 5], [k |-> "item"], [k |-> "index"]>>, <<[k |-> "var", v |-> "a"]>>,
          <<[k |-> "first"], [k |-> "item"], [k |-> "last"]>>}
 Branch == {<<>>, <<[k |-> "text", n |-> 6]>>, <<[k |-> "var", v |-> "b"]>>, <<[k |-> "opt", v |-> "a"]>>}
